@@ -183,7 +183,7 @@ fn real_main() {
                 (Some(t), Some(f)) => f(&t, loader, flags.parse().unwrap()),
                 _ => "badval".into(),
             }),
-            ["leak", i, loader, reps, h] => Some(match reg[i.parse::<usize>().unwrap()].leak {
+            ["leak" | "leaku", i, loader, reps, h] => Some(match reg[i.parse::<usize>().unwrap()].leak {
                 Some(f) => f(&(if *h == "DIR" { b"<dir>".to_vec() } else { unhex(h) }), loader, reps.parse().unwrap()),
                 None => "badval".into(),
             }),
